@@ -36,6 +36,7 @@ import Proofs.FitPayload
 import Proofs.FitAround
 import Proofs.FitTail
 import Proofs.InsertAtValid
+import Proofs.DeleteFlat
 import Proofs.FitOpen
 import Proofs.FitNoRaise
 import Proofs.FitNorm
@@ -2466,5 +2467,147 @@ theorem replace_valid_of_inv (S : Schema) (hdet : detB S = true) (hfill : S.fill
     C01.Valid S doc' ∧ Kept (ftoks doc.kids) (ftoks doc'.kids) f t (textUnits (sliceToks' sl)) :=
   replace_valid_of_inv_of_norm S hdet hfill hleaf hts hcl hst doc doc' f t sl hwf hslv hv hn hattrs hft st h hend
     (fun _ _ _ _ sl' _ _ e => fit_emits_norm S doc f t sl hsn st h sl' (by rw [e]; rfl)) ha
+
+/-! ## The emitted step applies (first sentence of C11): deletions that fit trivially
+
+`delete_total_valid` leaves a refusal branch (`failed` / `valueError`) for the `apply` of the emitted step.  This section
+closes it for the **flat case**: `from` and `to` have the same parent and that parent's
+`can_replace(index(from), index(to))` approves, so `replace_step` answers `ReplaceStep(from, to, Slice.empty)` without
+building a Fitter (`fits_trivially`).  Either end may lie strictly inside a text child.  Hypotheses beyond those of
+`delete_total_valid`, both decidable:
+* `FromDom.textStableB S` — reading a text child does not change what the content automaton accepts next.  It is needed:
+  `can_replace(i, j)` runs the automaton over `children[:i] ++ children[j:]`, where `children[i]` is the text child `from`
+  lies in, but the replace keeps the first half of that text child: `children[:i] ++ [text] ++ children[j:]`.  With content
+  `(text a)?` and children `[text "xy", a]`, deleting `[1, 3)` fits trivially (`can_replace(0, 2)` accepts the empty
+  content) and `ReplaceStep(1, 3).apply` fails (`[text "x"]` is rejected): `Transform.delete` raises.  Same in the code.
+* `fnorm doc.kids` (no empty text nodes, no adjacent text nodes with equal marks: what `Fragment.from_array` /
+  `Node.from_json` build) and `pairAligned` for both ends (Python cannot cut a `str` inside a surrogate pair).
+
+WHAT IS MISSING for the general `delete_applies` (the Fitter's answer `ReplaceStep(f, t', ⟨placed, depth(from), d⟩)` or the
+replace-around "move" form): the success of `replace_outer` at the joined levels.  At each joined depth `i` the replace
+calls `close(node_i, left_i ++ inner_i ++ right_i)` with `left_i` the children of the document's ancestor of `from`
+before the path, `inner_i` the closed deeper level plus the fillers `close_frontier_node` added, `right_i` the children
+of the ancestor of `t'` behind the path.  Needed and not yet proved: (1) a description of `placed` as this chain
+(`PureV`, Proofs/FitValid.lean, gives validity of each level but not *which* children it has); (2) from `Coh`
+(Proofs/FitCoherent.lean) at the end of `close`: `frontier[i].match` is the state after `left_i ++ inner_i`, and
+`findCloseLevel` / `closeFit_valid` give that `right_i` is accepted from it — i.e. `checkContent` of the joined node;
+(3) `joinable`: at every joined depth `replace_two_way` / `replace_three_way` call `check_join(node_i(from), node_i(t'))`,
+i.e. `compatible_content` of the two *document* ancestors.  The Fitter tests `compatible_content` only when nothing
+follows `t'` in the node (`content_after_fits`: `index == child_count and not type.compatible_content(…)`), so (3) is
+NOT a consequence of the run: it needs a schema-level guard "two node types one of whose content tails is accepted from
+a state of the other are `compatible_content`" (true of the bundled family, where joined ancestors have equal or
+start-compatible types; decidable over pairs of automaton states that share an edge label).  Without it the statement
+is false, in the code as upstream: schema `doc: "(x | y)+"`, `x: "a b*"`, `y: "b+"`, leaves `a`, `b`; `doc(x(a), y(b, b))`,
+`delete(2, 5)`: `replace_step` answers `ReplaceStep(2, 5, Slice.empty)` (the `b` behind `to` is accepted after `a`), and
+`Transform.delete` raises `TransformError("Cannot join y onto x")` (the start states of `x` and `y` share no type).
+Given (1)–(3), `replaceKids_undoG` (Proofs/UndoInverse.lean: a replace succeeds when a valid document in normal form exists
+whose cut is the slice and which is `LeftRel` / `RightRel` to the present one) or `replaceKids_merge_open`
+(Proofs/MergeOpen.lean) turn them into success of the replace. -/
+
+/-- the position does not fall between the two halves of a surrogate pair (as `C12.pairAligned`) -/
+def pairAligned (doc : Node) (pos : Nat) : Bool :=
+  match doc.resolve pos with
+  | some r => r.pairOk
+  | none => true
+
+/-- **`trivialFit_delete_applies`** — on a valid document in normal form, a deletion request that `fits_trivially`
+    approves applies: `ReplaceStep(f, t, Slice.empty).apply(doc)` succeeds -/
+theorem trivialFit_delete_applies (S : Schema) (hst : PM.FromDom.textStableB S = true) (doc : Node) (f t : Nat)
+    (hv : C01.Valid S doc) (hdoc : C01.IsElem doc) (hn : fnorm doc.kids = true) (hft : f ≤ t)
+    (hpf : pairAligned doc f = true) (hpt : pairAligned doc t = true)
+    (htr : fitsTriviallyO S doc f t Slice.empty = some true) :
+    ∃ doc', S.apply (.replace f t Slice.empty false) doc = .ok doc' := by
+  cases doc with
+  | text s m => simp [C01.IsElem, Node.isLeaf] at hdoc
+  | leaf ty a m => simp [C01.IsElem, Node.isLeaf] at hdoc
+  | elem ty0 a0 m0 K =>
+    unfold fitsTriviallyO at htr
+    split at htr
+    · rename_i rf rt hf ht
+      have hpf' : rf.pairOk = true := by simpa [pairAligned, hf] using hpf
+      have hpt' : rt.pairOk = true := by simpa [pairAligned, ht] using hpt
+      exact trivial_delete_applies S (PM.FromDom.textStable_of_B S hst) ty0 a0 m0 K f t rf rt hf ht hv hn hft
+        hpf' hpt' htr
+    · simp at htr
+
+/-- **`delete_applies_flat`** — the flat case of `delete_applies`: when the request fits trivially, the step
+    `replace_step` emits for the empty slice is `ReplaceStep(f, t, Slice.empty)` and its `apply` succeeds -/
+theorem delete_applies_flat (S : Schema) (hst : PM.FromDom.textStableB S = true) (doc : Node) (f t : Nat)
+    (hv : C01.Valid S doc) (hdoc : C01.IsElem doc) (hn : fnorm doc.kids = true) (hft : f ≤ t)
+    (hpf : pairAligned doc f = true) (hpt : pairAligned doc t = true)
+    (htr : fitsTriviallyO S doc f t Slice.empty = some true) (st : Step)
+    (h : replaceStep S doc f t Slice.empty = .ok (some st)) :
+    st = .replace f t Slice.empty false ∧ ∃ doc', S.apply st doc = .ok doc' := by
+  have hne : ¬ (f = t ∧ Slice.empty.size = 0) := by
+    intro hc
+    unfold replaceStep at h
+    rw [if_pos (by simp [hc.1, hc.2])] at h
+    simp [pure, Except.pure] at h
+  have h' := replaceStep_trivial S doc f t Slice.empty hne htr
+  rw [h'] at h
+  have e : st = .replace f t Slice.empty false := by
+    simp only [Except.ok.injEq, Option.some.injEq] at h
+    exact h.symm
+  subst e
+  exact ⟨rfl, trivialFit_delete_applies S hst doc f t hv hdoc hn hft hpf hpt htr⟩
+
+/-- **`delete_never_raises_flat`** — `Transform.delete(f, t)` as a whole in the flat case: `replace_step` returns
+    `None` (`f = t`) or the step `ReplaceStep(f, t, Slice.empty)`, and that step applies: the operation returns a valid
+    document with exactly the text inside `[f, t)` removed and everything else kept.  No refusal branch, no hypothesis
+    about the step. -/
+theorem delete_never_raises_flat (S : Schema) (hdet : detB S = true) (hfill : S.fillersOKB = true)
+    (hleaf : PM.FromDom.leafOkB S = true) (hst : PM.FromDom.textStableB S = true) (doc : Node) (f t : Nat)
+    (hv : C01.Valid S doc) (hdoc : C01.IsElem doc) (hn : fnorm doc.kids = true) (hattrs : S.nodeAttrsOK doc = true)
+    (hft : f ≤ t) (hpf : pairAligned doc f = true) (hpt : pairAligned doc t = true)
+    (htr : fitsTriviallyO S doc f t Slice.empty = some true) :
+    replaceStep S doc f t Slice.empty = .ok none ∨
+    ∃ doc', replaceStep S doc f t Slice.empty = .ok (some (.replace f t Slice.empty false)) ∧
+      S.apply (.replace f t Slice.empty false) doc = .ok doc' ∧ C01.Valid S doc' ∧
+      Kept (ftoks doc.kids) (ftoks doc'.kids) f t [] ∧
+      textUnits (ftoks doc'.kids) = textUnits ((ftoks doc.kids).take f) ++ textUnits ((ftoks doc.kids).drop t) := by
+  by_cases hne : f = t ∧ Slice.empty.size = 0
+  · left
+    unfold replaceStep
+    rw [if_pos (by simp [hne.1, hne.2])]
+    rfl
+  · right
+    have h' := replaceStep_trivial S doc f t Slice.empty hne htr
+    obtain ⟨doc', ha⟩ := trivialFit_delete_applies S hst doc f t hv hdoc hn hft hpf hpt htr
+    exact ⟨doc', h', ha, delete_valid S hdet hfill hleaf doc doc' f t hv hattrs hft _ h' ha⟩
+
+/-- non-vacuity: `doc(p("abcd"))` with `doc: "paragraph+"`, `paragraph: "text*"`; deleting `[2, 4)` (both ends
+    strictly inside the text child) fits trivially and all hypotheses hold (so the emitted step applies, by the theorem; `Step.apply` itself does not
+    reduce in the kernel) -/
+example :
+    let nt (name : String) (isText inl : Bool) (dfa : Array DfaState) : NodeType :=
+      { name := name, isText := isText, isInline := isText, isLeaf := isText, isAtom := isText,
+        inlineContent := inl, isolating := false, defining := false, code := false,
+        dfa := dfa, markSet := none, attrs := [] }
+    let S : Schema := { nodes := #[nt "doc" false false #[⟨false, [(1, 1)]⟩, ⟨true, [(1, 1)]⟩],
+                                   nt "paragraph" false true #[⟨true, [(2, 0)]⟩],
+                                   nt "text" true false #[⟨true, []⟩]],
+                        marks := #[], top := 0, textTy := 2 }
+    let doc := Node.elem 0 [] [] [.elem 1 [] [] [.text [97, 98, 99, 100] []]]
+    PM.FromDom.textStableB S = true ∧ S.checkNode doc = true ∧ fnorm doc.kids = true ∧
+    pairAligned doc 2 = true ∧ pairAligned doc 4 = true ∧
+    fitsTriviallyO S doc 2 4 Slice.empty = some true ∧
+    (match replaceStep S doc 2 4 Slice.empty with
+     | .ok (some (.replace 2 4 sl _)) => sl == Slice.empty
+     | _ => false) = true := by
+  decide +kernel
+
+/-- **`emitted_applies_of_result`** — the reduction the general `delete_applies` can go through: a `ReplaceStep(F, T, sl)`
+    (in particular the Fitter's answer) applies to a document in normal form as soon as a valid child list `K` in normal
+    form exists (the document the operation is to return) whose cut `[F, T₀)` is the slice, with the same content as
+    the document in front of `F` (`LeftRel`) and behind `T₀` the content of the document behind `T`, the joined ancestors
+    `compatible_content` (`RightRel`; Proofs/UndoRel.lean).  For a deletion `K` is: the document's nodes along `from`
+    with the fillers `close_frontier_node` added, joined level by level with the rest of the nodes along `t'`. -/
+theorem emitted_applies_of_result (S : Schema) (ty0 : TypeId) (a0 : Attrs) (m0 : Marks) (K' K : List Node)
+    (F T T₀ : Nat) (sl : Slice)
+    (hvc : S.validContent ty0 K = true) (hv : S.checkKids K = true) (hn : fnorm K = true)
+    (hn' : fnorm K' = true) (hft : F ≤ T₀) (ht : T₀ ≤ fsize K) (hft' : F ≤ T)
+    (hs : sliceKids K F T₀ = .ok sl) (hL : LeftRel K' K F) (hR : RightRel S K' T K T₀) :
+    ∃ doc', S.apply (.replace F T sl false) (.elem ty0 a0 m0 K') = .ok doc' :=
+  replace_applies_of_result S ty0 a0 m0 K K' F T₀ T sl hvc hv hn hn' hft ht hft' hs hL hR
 
 end PM.C11
